@@ -92,7 +92,7 @@ func startScriptedPeers(addrRf, addrAb, pem, key string) (rfp, abp *scriptedPeer
 						CurrencyCode: 901,
 						ScaleFactor:  &charging_datatype.ScaleFactor{},
 						RateElement: &charging_datatype.RateElement{
-							CCUnitType: charging_datatype.MONEY, UnitCost: &charging_datatype.UnitCost{ValueDigits: 1, Exponent: 0},
+							CCUnitType: charging_datatype.MONEY, UnitCost: &charging_datatype.UnitCost{ValueDigits: datatype.Integer64(1000 + n), Exponent: 0},
 						},
 					},
 				},
@@ -165,7 +165,7 @@ func RunLink(prefix, in, out string) error {
 		for n, fate := range c.Fates {
 			if wedged {
 				updates = append(updates, map[string]any{"n": n + 1, "skipped": true, "finished": false, "status": -2, "own": map[string]any{"abmf": []int{}, "rating": []int{}},
-					"usedAbmf": -1, "usedRating": -1, "ms": 0})
+					"usedAbmf": -1, "usedRating": -1, "usedCost": -1, "ms": 0})
 				continue
 			}
 			rfp.mu.Lock()
@@ -184,7 +184,7 @@ func RunLink(prefix, in, out string) error {
 				reservedBefore = ue.ReservedQuota[1]
 			}
 			upd := fmt.Sprintf(`{"subscriberIdentifier":%q,"invocationSequenceNumber":%d,"multipleUnitUsage":[{"ratingGroup":1,"requestedUnit":{"totalVolume":%d},"usedUnitContainer":[{"quotaManagementIndicator":"ONLINE_CHARGING","totalVolume":0,"localSequenceNumber":%d}]}]}`,
-				supi, n+2, 1000000*(n+1), n+1)
+				supi, n+2, 100000*(n+1), n+1)
 			t0 := time.Now()
 			res := env.Do("POST", "/nchf-convergedcharging/v3/chargingdata/"+ref+"/update", []byte(upd), nil, 45*time.Second)
 			ms := time.Since(t0).Milliseconds()
@@ -193,8 +193,11 @@ func RunLink(prefix, in, out string) error {
 			own := map[string]any{"abmf": seqRange(a0+1, abp.count), "rating": seqRange(r0+1, rfp.count)}
 			abp.mu.Unlock()
 			rfp.mu.Unlock()
-			usedAb, usedRf := -1, -1
+			usedAb, usedRf, usedCost := -1, -1, -1
 			if ue, ok := chf_context.GetSelf().ChfUeFindBySupi(supi); ok && !res.Timeout {
+				if c := int(ue.UnitCost[1]); c >= 1000 {
+					usedCost = c - 1000 // tag of the rating answer the unit cost was last taken from
+				}
 				if d := ue.ReservedQuota[1] - reservedBefore; d > 0 && d%1000 == 0 {
 					usedAb = int(d / 1000)
 				} else if d != 0 {
@@ -212,7 +215,7 @@ func RunLink(prefix, in, out string) error {
 				usedRf = rb.M[0].G.T - 100
 			}
 			updates = append(updates, map[string]any{"n": n + 1, "skipped": false, "finished": !res.Timeout, "status": res.Status, "own": own,
-				"usedAbmf": usedAb, "usedRating": usedRf, "ms": ms})
+				"usedAbmf": usedAb, "usedRating": usedRf, "usedCost": usedCost, "ms": ms})
 			if res.Timeout {
 				wedged = true
 				continue
